@@ -50,7 +50,11 @@ class Gen:
         if ty is BOOL:
             return r.random() < 0.5
         if ty is STR:
-            return r.choice(STR_POOL)
+            # coincidence bias: half of the strings repeat one already used in this input (dict keys, rule ids, patterns then meet)
+            seen = self.__dict__.setdefault("strs", [])
+            v = r.choice(seen) if seen and r.random() < 0.5 else r.choice(STR_POOL)
+            seen.append(v)
+            return v
         if ty is BYTES:
             return r.choice([b"", b"x = 1\n", b"\xff"])
         if isinstance(ty, TOpt):
@@ -87,7 +91,9 @@ class Gen:
             return self.record(ty, depth)
         if ty is OPAQUE:
             h = hint.lower()
-            if any(w in h for w in ("path", "file", "director")):
+            if "director" in h and r.random() < 0.7:
+                v = PATH_POOL[2]                 # the common parent of the path pool: `file.relative_to(directory)` is then defined
+            elif any(w in h for w in ("path", "file", "director")):
                 v = r.choice(PATH_POOL)
             elif "node" in h:
                 v = _node(r)
@@ -321,7 +327,7 @@ def search(E, reg, qualname, contract, targets, seed=0, tries=400, stop_early=Tr
         return out
     from .verify import param_types
     ptys = param_types(E, fn, fdef, contract, owner)
-    rng = random.Random(seed * 7919 + hash(qualname) % 1000)
+    rng = random.Random(seed * 7919 + __import__('zlib').crc32(qualname.encode()) % 1000)
     todo = [(oid, kind, cl) for oid, kind, cl in targets if kind == "raises" or (cl and not _uses_unsupported(cl))]
     if not todo:
         return out
